@@ -9,7 +9,7 @@ RULE = ("cases = (encoded array, index) for every array of length 1..L over {0,1
         "oracle = the same index applied to the dense array; non-trivial = the array has at least two runs and the result is non-empty")
 ASSUMPTIONS = ["oracle: numpy indexing of the dense array; values only", "out-of-range integers are outside the statement and not issued",
                "results that are run-length arrays must also satisfy the constructor invariant (C14)"]
-REQUIRED_FEATURES = ["negative_int", "bound_beyond_end", "negative_step", "empty_result", "rl_mask", "rl_mask_not_canonical", "dense_mask", "list_of_bools_mask", "window_pair", "list_with_repeats", "close_float_values",
+REQUIRED_FEATURES = ["negative_int", "bound_beyond_end", "negative_step", "empty_result", "rl_mask", "rl_mask_not_canonical", "dense_mask", "list_of_bools_mask", "small_index_dtype", "window_pair", "list_with_repeats", "close_float_values",
                      "step_larger_than_run"]
 BOUNDS = {"quick": "all arrays over {0,1,2} of length 1..4 and those of length 5 starting with 0 x {every int in [-L,L-1]; every list of length<=2; every dense and run-length mask; every slice with "
                    "start,stop in {None} u [-(L+2),L+2] and step in {None,+-1,+-2,+-3,+-4}; every vector of 1-2 windows}",
@@ -34,6 +34,9 @@ def shards(tier):
     # two 40-element arrays with long and short runs (size / threshold effects), reduced slice grid
     out.append({"a": [0] * 9 + [1] * 1 + [2] * 14 + [0, 1, 0, 1] + [2] * 12, "slim": 1})
     out.append({"a": [(i * 7 // 5) % 3 for i in range(40)], "slim": 1})
+    # positions handed over in small integer dtypes on arrays whose length is close to that dtype's range
+    out.append({"a": [(i * 3 // 7) % 3 for i in range(100)], "smalldt": 1})
+    out.append({"a": [(i * 5 // 11) % 3 for i in range(200)], "smalldt": 1})
     if tier != "quick":
         for L in (7, 8):
             for t in itertools.product(range(2), repeat=L):
@@ -48,6 +51,18 @@ CLOSE = [0.0, 1e-9, 1.0, 1.0000001]
 def cases(shard, tier):
     t = shard["a"]
     L = len(t)
+    if shard.get("smalldt"):
+        for dt in ("int8", "uint8", "int16", "int32"):
+            hi = int(np.iinfo(dt).max)
+            if L - 1 > hi:
+                continue
+            pos = [0, 27, 28, L // 2, L - 1, L - 100, 1]
+            if np.dtype(dt).kind == "i" and -L >= int(np.iinfo(dt).min):
+                pos += [-1, -L, -28]
+            yield [t, ["arrdt", pos, dt]]
+            for i in pos:
+                yield [t, ["intdt", i, dt]]
+        return
     if shard.get("vals") == "close":
         rng = [None, -L, -1, 0, 1, L]
         for st in rng:
@@ -115,6 +130,17 @@ def check(case, acc):
             acc.feature("empty_result")
         exp = dense_obs(e, dt=False)
         f = lambda: _rla_obs(r[s], joined=(idx[3] not in (None, 1)))
+        f2 = None
+    elif kind in ("arrdt", "intdt"):
+        acc.feature("small_index_dtype")
+        if kind == "arrdt":
+            sel = np.array(idx[1], dtype=idx[2])
+            exp = dense_obs(a[np.array(idx[1], dtype=np.int64)], dt=False)
+            f = lambda: dense_obs(np.asarray(r[sel]), dt=False)
+        else:
+            sc = np.dtype(idx[2]).type(idx[1])
+            exp = ("S", pyval(a[idx[1]]))
+            f = lambda: ("S", pyval(np.asarray(r[sc])[()]))
         f2 = None
     elif kind in ("list", "arr"):
         if len(set(i % L for i in idx[1])) < len(idx[1]):
